@@ -116,20 +116,24 @@ def addAll (pv : PV) : PQ PV → List Nat → PQ PV
   | q, [] => q
   | q, x :: xs => addAll pv (q.add H PV.lt pv x) xs
 
+/-- the priority value `insert` gives to the promoted entries and the new one: class 0, one step
+    ahead of a positional head (the peek only happens when the promotion loop finished without
+    IndexError, `done`). -/
+def insertPV (s1 : PosPQ) (done : Bool) : PV :=
+  { base :=
+      if done then
+        match s1.q.peek with
+        | some e => if e.pri.cls == 0 then e.pri.base - 1 else 0
+        | none => 0
+      else 0
+    insertedAt := s1.nIns
+    cls := 0 }
+
 /-- `insert(position, obj)` -/
 def insert (s : PosPQ) (position : Nat) (x : Nat) (draw : Nat → Rat) : PosPQ :=
   let r := promote H draw position s []
-  let s1 := r.1
-  let promoted := r.2
-  -- the peek only happens when the loop finished without IndexError
-  let priorityVal : Rat :=
-    if promoted.length == position then
-      match s1.q.peek with
-      | some e => if e.pri.cls == 0 then e.pri.base - 1 else 0
-      | none => 0
-    else 0
-  let pv : PV := { base := priorityVal, insertedAt := s1.nIns, cls := 0 }
-  updateCounters H { s1 with q := addAll H pv s1.q (promoted ++ [x]) } true draw
+  let pv := insertPV r.1 (r.2.length == position)
+  updateCounters H { r.1 with q := addAll H pv r.1.q (r.2 ++ [x]) } true draw
 
 /-- `remove(obj)`; `none` = ValueError -/
 def remove (s : PosPQ) (x : Nat) (draw : Nat → Rat) : Option PosPQ :=
